@@ -70,6 +70,7 @@ pub fn check_sender(tr: &Trace) -> (Vec<MViol>, Summary) {
     let mut hi: u64 = 0;
     let mut acked: u64 = 0;
     let mut any_data = false;
+    let mut waited_after_data = false;
     let mut ended: Option<&'static str> = None;
     let mut reported_after_end = false;
     let mut last_burst_t: Option<i64> = None;
@@ -183,6 +184,9 @@ pub fn check_sender(tr: &Trace) -> (Vec<MViol>, Summary) {
             }
             Event::Recv { answer, .. } => {
                 close_burst(&mut out, &mut push, &mut burst, hi_before_burst, acked, prev_raised_to, prev_partial, prev_dup, &prev_label, &mut last_burst_t, ended);
+                if any_data {
+                    waited_after_data = true;
+                }
                 if let Some(why) = ended {
                     if !reported_after_end {
                         reported_after_end = true;
@@ -277,7 +281,9 @@ pub fn check_sender(tr: &Trace) -> (Vec<MViol>, Summary) {
             push(&mut out, mv("L1-gave-up-early", props, format!("sender ended{} before the final block was acknowledged although at most {} consecutive receive attempts failed (last answer [{}])", if tr.panicked { " by panic" } else { "" }, max_consecutive_failures, prev_label), &[("role", json!("sender")), ("panic", json!(tr.panicked))]));
         }
     }
-    if tr.now_calls == 0 && any_data {
+    // a sender that has transmitted data and then waited for an answer twice or more must have taken a timestamp by then (the
+    // hook exists to make exactly that timestamp virtual); one that stopped earlier (e.g. its first send was refused) need not
+    if tr.now_calls == 0 && any_data && waited_after_data && tr.events.iter().filter(|e| matches!(e, Event::Recv { .. })).count() >= 2 {
         push(&mut out, mv("MACHINERY-hook-bypassed", &[], "the virtual clock was never consulted by a sending worker".into(), &[]));
     }
     (out, Summary { finished, error_delivered, max_consecutive_failures, tolerated_abort_cause })
